@@ -91,12 +91,12 @@ class Ctx:
 
     # -- finishing -----------------------------------------------------
     def finish(self) -> int:
+        floor_error = None
         for rule, n in self.floors:
             got = self.count(rule)
-            if got < n:
-                raise AnalysisError(
-                    f'instance floor not reached for rule {rule}: {got} < {n} '
-                    f'(a rule matching fewer sites than confirmed by hand must not pass)')
+            if got < n and floor_error is None:
+                floor_error = (f'instance floor not reached for rule {rule}: {got} < {n} '
+                               f'(a rule matching fewer sites than confirmed by hand must not pass)')
         known = load_known()
         listed = {(k['rule'], k['construct']): k for k in known.get('findings', []) if k.get('property') == self.pid}
         failing = [o for o in self.obligations if not o['ok']]
@@ -112,6 +112,10 @@ class Ctx:
             if ent is not None and ent.get('detail') is not None and ent['detail'] != o['detail']:
                 ent = None
             (kf if ent is not None else viol).append(o)
+        # a rule that lost instances without any reported violation passed vacuously: analysis broken.  With a violation reported the
+        # missing instances are explained by the construct the violation names.
+        if floor_error is not None and not viol:
+            raise AnalysisError(floor_error)
         out = sys.stdout
         if not self.quiet:
             print(f'[{self.pid}] tier={self.tier} obligations={len(self.obligations)} '
